@@ -881,6 +881,11 @@ class ExprMixin(object):
             return st, SV(u.S(f(self.as_str(a), self.as_str(b))), "str")
         if isinstance(op, ast.Mod) and a.kind == "str":
             # string formatting: opaque result
+            if b.kind == "pytuple" and b.py and all(it.kind in ("str", "int", "bool") and it.z is not None for it in b.py):
+                # immutable operands: the text is a function of the format and of the operand values (not of the
+                # identity of the freshly boxed tuple)
+                f = u.uf("str_format%d" % len(b.py), u.Str, *([u.Val] * len(b.py) + [u.Str]))
+                return st, SV(u.S(f(self.as_str(a), *[it.z for it in b.py])), "str")
             b = self.box(st, b)
             f = u.uf("str_format", u.Str, u.Val, u.Str)
             return st, SV(u.S(f(self.as_str(a), b.z)), "str")
